@@ -244,7 +244,7 @@ func runEsOnce(in sx.Tree) esRun {
 	res := esRun{}
 	accepted := []int64{}
 	// quiescence: every accepted document has an answer and no bulk request is in flight
-	budget := 1500*time.Millisecond + W + time.Duration(lates)*1200*time.Millisecond
+	budget := 700*time.Millisecond + W + time.Duration(lates)*1200*time.Millisecond
 	if wholes > 0 {
 		backoff := time.Duration(0)
 		for i := 0; i < wholes; i++ {
